@@ -330,7 +330,8 @@ def impl_env(extra=None):
     env.setdefault("NUMBA_NUM_THREADS", "4")
     env["PIP_NO_INDEX"] = "1"
     # numba's on-disk cache must never serve code compiled from an older working tree
-    env["NUMBA_CACHE_DIR"] = os_makedirs(os.path.join(WORK, "numba_cache_%d" % os.getpid()))
+    import tempfile
+    env["NUMBA_CACHE_DIR"] = tempfile.mkdtemp(prefix="numba_cache_", dir=os_makedirs(WORK))
     if extra:
         env.update(extra)
     return env
@@ -340,7 +341,7 @@ def run_impl(script, payload, env_extra=None, timeout=1800):
     """Run harness/impl/<script>.py in a child /venv/bin/python against /repo; JSON in, JSON out.
     Returns (results | None, info).  A crash/abort/timeout of the child is an observation."""
     d = os_makedirs(os.path.join(WORK, "impl"))
-    tag = "%s_%d_%d" % (script, os.getpid(), int(time.time() * 1000) % 100000000)
+    tag = "%s_%d_%s" % (script, os.getpid(), hashlib.sha1(os.urandom(8)).hexdigest()[:10])
     fin, fout = os.path.join(d, tag + ".in.json"), os.path.join(d, tag + ".out.json")
     json.dump(payload, open(fin, "w"))
     env = impl_env(env_extra)
